@@ -336,6 +336,20 @@ impl KeyKeeperSharedState {
         }
     }
 
+    /// Get the guid and the value of the current key from one and the same actor reply.
+    /// Use this one, rather than get_current_key_guid + get_current_key_value, to sign a request:
+    /// the key could be updated or cleared between two separate reads,
+    /// which would pair the guid of one key with the value of another key.
+    /// # Returns
+    /// * `Option<(String, String)>` - (key guid, key value) of the current key, None if no key is set
+    pub async fn get_current_key_guid_and_value(&self) -> Result<Option<(String, String)>> {
+        match self.get_key().await {
+            Ok(Some(k)) => Ok(Some((k.guid, k.key))),
+            Ok(None) => Ok(None),
+            Err(e) => Err(e),
+        }
+    }
+
     pub async fn get_current_key_incarnation(&self) -> Result<Option<u32>> {
         match self.get_key().await {
             Ok(Some(k)) => Ok(k.incarnationId),
